@@ -479,7 +479,7 @@ def run(tier, seed):
                     for pw in (1, 2, 3):
                         cases.append((n, k, sc, pw, "mag"))
         run.exhaustive = True
-        n_random = 600000
+        n_random = 3000000
     else:
         for n in names:
             for _ in range(10):
